@@ -9,7 +9,7 @@ package common
 // ---- RunSetup
 // Preconditions are facts of the call site chain vm.EVM.Call/CallCode/StaticCall -> runPrecompiledContract -> Run -> RunSetup:
 // evm and contract are non-nil (NewPrecompile), a *statedb.StateDB handed to the EVM is non-nil (statedb.New), the contract
-// carries a value unless the frame was entered by DELEGATECALL (nil value) - see FINDING AA2 -, block heights are >= 0.
+// carries a value unless the frame was entered by DELEGATECALL (nil value) (handled since the AA2 fix), block heights are >= 0.
 func (Precompile).RunSetup
     requires wf: evm != nil && contract != nil
     requires sdb: isdyn(evm.StateDB, *SDBc) ==> dyn(evm.StateDB, *SDBc) != nil
